@@ -762,6 +762,8 @@ func (v *Verifier) execLoop(fr *Frame, st *State, node ast.Node, pos token.Pos, 
 	loopScope := bodyPos(body, pos)
 	fr.scopeAt = loopScope
 	defer func() { fr.scopeAt = outerScope }()
+	fr.loopEntry = append(fr.loopEntry, st.fork())
+	defer func() { fr.loopEntry = fr.loopEntry[:len(fr.loopEntry)-1] }()
 	// 1. entry
 	for _, cl := range invs {
 		t := v.asBool(v.evalSpec(fr, st, cl.Expr), pos)
